@@ -126,7 +126,11 @@ def rand_opt(rng):
     port = rng.choice([0, 1, 30490, 0xFFFF, rng.getrandbits(16)])
     proto = rng.choice([hdr.L4Protocols.UDP, hdr.L4Protocols.TCP, 0, 1, 99, 255])
     a4 = ipaddress.IPv4Address(rng.choice([0, 0xFFFFFFFF, 0xC0000201, rng.getrandbits(32)]))
-    a6 = ipaddress.IPv6Address(rng.choice([0, (1 << 128) - 1, rng.getrandbits(128)]))
+    a6 = ipaddress.IPv6Address(rng.choice([0, 1, (1 << 128) - 1, rng.getrandbits(128), rng.getrandbits(128),
+                                           (0xFFFF << 32) | rng.getrandbits(32),       # v4-mapped  ::ffff:a.b.c.d
+                                           rng.getrandbits(32),                        # v4-compatible  ::a.b.c.d
+                                           (0xFE80 << 112) | rng.getrandbits(64), (0xFF02 << 112) | 1,
+                                           (0x2002 << 112) | (rng.getrandbits(32) << 80), (0x64FF9B << 96) | rng.getrandbits(32)]))
     if k == 0:
         return hdr.IPv4EndpointOption(a4, proto, port)
     if k == 1:
